@@ -415,6 +415,11 @@ fn gen_value(rng: &mut Rng, prg: &TypedProgram, cs: &HashMap<String, usize>, t: 
                 gen_value(rng, prg, cs, e, out)
             }
         }
+        Type::ArrayConstExpr(e, c) => {
+            for _ in 0..const_usize(c, cs) {
+                gen_value(rng, prg, cs, e, out)
+            }
+        }
         Type::Tuple(ts) => {
             for t in ts {
                 gen_value(rng, prg, cs, t, out)
@@ -554,7 +559,10 @@ pub fn job_program(job: &Sexp) -> String {
     };
     // inputs: per parameter (for the model) and per party (for the circuits)
     let split = base.main.params.len() == 1
-        && matches!(base.main.params[0].ty, Type::Array(_, _) | Type::ArrayConst(_, _));
+        && matches!(
+            base.main.params[0].ty,
+            Type::Array(_, _) | Type::ArrayConst(_, _) | Type::ArrayConstExpr(_, _)
+        );
     let mut rng = Rng(seed.wrapping_mul(0x9E3779B97F4A7C15) | 1);
     let mut per_param: Vec<Vec<Vec<bool>>> = vec![];
     // replay: inputs given explicitly as (given ("bits of param 0" "bits of param 1" ..) ..)
